@@ -27,23 +27,65 @@ var rfcAugmentTargets = []string{"case", "choice", "container", "input", "list",
 func nilArmKeywords(w *World, fd *ast.FuncDecl) []string {
 	p := w.Pkg("compile")
 	names, _ := nodeTypeNames(w)
+	tf, _ := p.TypesInfo.Defs[fd.Name].(*types.Func)
+	f := w.SSAFunc(tf)
+	if f == nil || len(ssaLoops(f)) > 0 {
+		panic(undecided{funcDeclName(fd) + ": not a loop-free function"})
+	}
+	// the statement kinds for which the function answers nil, leaving aside the
+	// blanket answer for extension statements: the values `x.Type()` can have on
+	// the ways to a nil result on which IsExtensionNode() is false
+	sym := NewSym(w)
+	sym.Expand = false
 	var out []string
-	ast.Inspect(fd.Body, func(n ast.Node) bool {
-		cc, ok := n.(*ast.CaseClause)
-		if !ok || cc.List == nil {
-			return true
-		}
-		rets := returnsIn(cc)
-		if len(rets) != 1 || len(rets[0].Results) != 1 || !isNilIdent(p, rets[0].Results[0]) {
-			return true
-		}
-		for _, e := range cc.List {
-			if v, ok := ConstInt(p, e); ok {
-				out = append(out, names[v])
+	seen := map[int64]bool{}
+	typeKeys := map[string]bool{} // x.Type() of a parameter x
+	for _, b := range f.Blocks {
+		for _, in := range b.Instrs {
+			if c, ok := in.(*ssa.Call); ok && c.Call.IsInvoke() && nm(c.Call.Method) == "Type" {
+				if _, isP := c.Call.Value.(*ssa.Parameter); isP {
+					typeKeys[sym.Key(c, nil)] = true
+				}
 			}
 		}
-		return true
-	})
+	}
+	for _, row := range sym.retTable(f, 0) {
+		if !isNilConst(row.val) {
+			continue
+		}
+		cond := row.cond
+		subj := ""
+		for _, a := range cond.atoms() {
+			if c, ok := a.v.(*ssa.Call); ok && a.x == nil && ((c.Call.IsInvoke() && nm(c.Call.Method) == "IsExtensionNode") ||
+				(c.Call.StaticCallee() != nil && c.Call.StaticCallee().Name() == "IsExtensionNode")) {
+				cond = pcAndF(cond, pcNotF(&pcF{k: pcAtomK, atom: a}))
+			}
+			if a.subj != "" && subj == "" && typeKeys[a.subj] {
+				subj = a.subj
+			}
+		}
+		if subj == "" {
+			if !pcSat(cond) {
+				continue
+			}
+			panic(undecided{funcDeclName(fd) + ": a nil answer that does not depend on the statement kind"})
+		}
+		vals, ok := pcValuesWhenWide(cond, subj)
+		if !ok {
+			panic(undecided{funcDeclName(fd) + ": kinds answered with nil not decided"})
+		}
+		for _, iv := range vals {
+			if iv.hi-iv.lo > 1000 {
+				panic(undecided{funcDeclName(fd) + ": a nil answer for an unbounded range of statement kinds"})
+			}
+			for v := iv.lo; v <= iv.hi; v++ {
+				if !seen[v] {
+					seen[v] = true
+					out = append(out, names[v])
+				}
+			}
+		}
+	}
 	sort.Strings(out)
 	return out
 }
